@@ -536,6 +536,14 @@ func containChild(args []string) int {
 				b[0] = byte(r.Pick([]int{0, 3, 9, 'X', 0xda, 'P', 'G'}))
 			}
 			v, _ := selVerdict(b)
+			if v >= 10 {
+				// detected as one of the protocols: what happens next is that protocol's business (covered on its own listener)
+				b[0] = 0xfe
+				v, _ = selVerdict(b)
+			}
+			if v >= 10 {
+				continue
+			}
 			ins = append(ins, atkInput{Listener: "auto", Kind: "auto-garbage", Bytes: b, WantClosed: v == 1, Residue: len(b)})
 		}
 		// upstream side: valid requests routed to the upstream that answers with malformed frames
